@@ -30,8 +30,8 @@ LEVEL_NOTE = "trusted: the harness' reading of the block index flags and Calcula
 
 def runs(tier, seed):
     if tier == "thorough":
-        return [Run("net_unrequested", cases=2400, timeout=3000)]
-    return [Run("net_unrequested", cases=48, timeout=900)]
+        return [Run("net_unrequested", cases=384, timeout=20000)]
+    return [Run("net_unrequested", cases=48, timeout=7200)]
 
 
 def check(rec, st):
